@@ -11,6 +11,12 @@ invocation (nested ones included), a *frame*:
  irrelevant frame etype, types, the two lists `find_supertypes` / `find_subtypes` returned to THIS
                   invocation, the list handed to `random.choice` right after (= `available_types`),
                   the result / exception
+ cand frame       one invocation of `_find_candidate_type_args`: the parameter, the argument, the value
+                  `_replace_type_argument` returned (if asked), direction, ignore_variance, the direct
+                  `_find_types` sub-calls in order (etype, direction, bound, answer), the candidate list
+ irrparam frame   one invocation of `get_irrelevant_parameterized_type`: constructor, the entry of
+                  `type_args_map`, per parameter the replacement drawn (`random.choice` outside `to_type`
+                  for an invariant parameter, the nested `find_irrelevant_type` answer otherwise), the result
 
 No extra call of the real code is made, so the random stream of a generator run is unchanged.
 `requests_of_find` / `requests_of_irrelevant` turn frames into driver requests:
@@ -19,11 +25,14 @@ No extra call of the real code is made, so the random stream of a generator run 
  find.check      refinement: the Lean checker `subtypesOK` on the returned list (top-level frames)
  find.avail      exact: model `availTypes` == recorded `available_types`
  find.irrelevant refinement: the Lean checker `irrelevantOK` on the answer
+ find.cand       exact: the recorded sub-calls == model `candidateCalls`, the candidate list == model
+                 `candidateArgs` of the recorded answers
+ find.irrparam   exact: model `irrelevantParam` (recorded replacements) == the answer
 """
 import common
 from common import canon
 import export
-from export import kind
+from export import kind, VAR
 import refsub
 
 SIG_SUB = "find_types:"
@@ -42,7 +51,8 @@ class Instrument:
         self.frames = []          # finished frames, in completion order
         self.stack = []           # open frames
         self.orig = {}
-        self.calls = {"find": 0, "irrelevant": 0}
+        self.calls = {"find": 0, "irrelevant": 0, "cand": 0, "irrparam": 0}
+        self.in_to_type = 0
 
     # ---- installation ------------------------------------------------------------------------
     def install(self):
@@ -50,7 +60,8 @@ class Instrument:
         from src import utils
         self.tu, self.utils = tu, utils
         for n in ("_find_types", "_construct_related_types", "to_type", "find_subtypes", "find_supertypes",
-                  "find_irrelevant_type"):
+                  "find_irrelevant_type", "_find_candidate_type_args", "_replace_type_argument",
+                  "get_irrelevant_parameterized_type"):
             self.orig[n] = getattr(tu, n)
         o = self.orig
         me = self
@@ -58,6 +69,12 @@ class Instrument:
         def w_find_types(etype, types, get_subtypes, include_self, bound=None, concrete_only=False,
                          ignore_variance=False):
             me.calls["find"] += 1
+            parent = me.stack[-1] if me.stack else None
+            sub = None
+            if parent is not None and parent["kind"] == "cand":
+                sub = {"etype": etype, "get_subtypes": bool(get_subtypes), "include_self": bool(include_self),
+                       "bound": bound, "concrete_only": bool(concrete_only)}
+                parent["calls"].append(sub)
             fr = {"kind": "find", "depth": len(me.stack), "etype": etype, "types": list(types),
                   "get_subtypes": bool(get_subtypes), "include_self": bool(include_self), "bound": bound,
                   "concrete_only": bool(concrete_only), "ignore_variance": bool(ignore_variance),
@@ -66,6 +83,8 @@ class Instrument:
             try:
                 r = o["_find_types"](etype, types, get_subtypes, include_self, bound, concrete_only, ignore_variance)
                 fr["result"] = list(r)
+                if sub is not None:
+                    sub["result"] = list(r)       # a copy: the caller extends the returned list in place
                 return r
             except Exception as e:
                 fr["exception"] = type(e).__name__
@@ -88,7 +107,15 @@ class Instrument:
 
         def w_to_type(stype, types):
             fr = me.stack[-1] if me.stack else None
-            r = o["to_type"](stype, types)
+            me.in_to_type += 1
+            try:
+                r = o["to_type"](stype, types)
+            except Exception as e:
+                if fr is not None and fr["kind"] == "find":
+                    fr["to_type_exc"] = type(e).__name__      # e.g. no plain type to instantiate with
+                raise
+            finally:
+                me.in_to_type -= 1
             if fr is not None and fr["kind"] == "find":
                 fr["to_type"].append((stype, r))
             return r
@@ -111,12 +138,15 @@ class Instrument:
 
         def w_irrelevant(etype, types, factory):
             me.calls["irrelevant"] += 1
+            parent = me.stack[-1] if me.stack else None
             fr = {"kind": "irrelevant", "depth": len(me.stack), "etype": etype, "types": [_ty(t) for t in types],
                   "factory": factory}
             me.stack.append(fr)
             try:
                 r = o["find_irrelevant_type"](etype, types, factory)
                 fr["result"] = r
+                if parent is not None and parent["kind"] == "irrparam":
+                    parent["choices"].append(("irrelevant", r))
                 return r
             except Exception as e:
                 fr["exception"] = type(e).__name__
@@ -126,6 +156,51 @@ class Instrument:
                 fr.pop("armed", None)
                 me._keep(fr)
 
+        def w_cand(t_param, base_targ, types, get_subtypes, type_var_map={}, ignore_variance=False):
+            me.calls["cand"] += 1
+            fr = {"kind": "cand", "depth": len(me.stack), "t_param": t_param, "base": base_targ,
+                  "types": list(types), "get_subtypes": bool(get_subtypes),
+                  "ignore_variance": bool(ignore_variance), "calls": []}
+            me.stack.append(fr)
+            try:
+                r = o["_find_candidate_type_args"](t_param, base_targ, types, get_subtypes, type_var_map,
+                                                   ignore_variance)
+                fr["result"] = None if r is None else list(r)
+                return r
+            except Exception as e:
+                fr["exception"] = type(e).__name__
+                raise
+            finally:
+                me.stack.pop()
+                me._keep(fr)
+
+        def w_replace(base_targ, bound, types, has_type_variables):
+            fr = me.stack[-1] if me.stack else None
+            r = o["_replace_type_argument"](base_targ, bound, types, has_type_variables)
+            if fr is not None and fr["kind"] == "cand" and "replaced" not in fr:
+                fr["replaced"] = (r,)
+            return r
+
+        def w_irrparam(etype, types, type_args_map, factory):
+            me.calls["irrparam"] += 1
+            ta = type_args_map.get(etype.name)
+            fr = {"kind": "irrparam", "depth": len(me.stack), "con": etype, "types": [_ty(t) for t in types],
+                  "type_args": None if ta is None else list(ta), "factory": factory, "choices": []}
+            me.stack.append(fr)
+            try:
+                r = o["get_irrelevant_parameterized_type"](etype, types, type_args_map, factory)
+                fr["result"] = r
+                return r
+            except Exception as e:
+                fr["exception"] = type(e).__name__
+                raise
+            finally:
+                me.stack.pop()
+                me._keep(fr)
+
+        tu._find_candidate_type_args = w_cand
+        tu._replace_type_argument = w_replace
+        tu.get_irrelevant_parameterized_type = w_irrparam
         tu._find_types = w_find_types
         tu._construct_related_types = w_related
         tu.to_type = w_to_type
@@ -141,7 +216,10 @@ class Instrument:
             if fr is not None and fr["kind"] == "irrelevant" and fr.get("armed"):
                 fr["armed"] = False
                 fr["available"] = list(choices)
-            return inner(choices)
+            r = inner(choices)
+            if fr is not None and fr["kind"] == "irrparam" and me.in_to_type == 0 and fr["type_args"] is not None:
+                fr["choices"].append(("choice", r))
+            return r
         utils.random.choice = w_choice
         return self
 
@@ -164,6 +242,8 @@ class Instrument:
     def _keep(self, fr):
         if "result" not in fr and "exception" not in fr:
             return      # aborted by the wall-clock cut-off of the pipeline (a BaseException): not a frame
+        if self.stack:
+            self.stack[-1].setdefault("children", []).append(fr)     # the direct callees of an invocation
         if len(self.frames) < self.cap:
             self.frames.append(fr)
 
@@ -198,8 +278,8 @@ def requests_of_find(fr, boxes):
     if pre is not None:
         rq["expect"] = [tt.add(t) for t in pre]
     rq["tt"] = tt.entries
-    if "related_exc" not in fr:
-        # (an exception inside the randomised `_construct_related_types` is outside the model: counted)
+    if "related_exc" not in fr and "to_type_exc" not in fr:
+        # (an exception inside the randomised `_construct_related_types` / `to_type` is outside the model: counted)
         out.append((rq, impl, {"what": "exact", "frame": fr}))
     if "result" in fr and fr["depth"] == 0:
         tt2 = export.TypeTable()
@@ -247,6 +327,44 @@ def requests_of_irrelevant(fr):
         rq2["tt"] = tt2.entries
         out.append((rq2, True, {"what": "refine-irrelevant", "frame": fr}))
     return out
+
+
+def requests_of_cand(fr):
+    """exact request of one `_find_candidate_type_args` frame (none when the invocation is outside the model:
+    exception, a nested search raised, no candidate because `_replace_type_argument` found nothing)"""
+    if "exception" in fr or any("result" not in c for c in fr["calls"]):
+        return []
+    base = fr["replaced"][0] if "replaced" in fr else fr["base"]
+    if base is None or not base:
+        return []                       # `if not base_targ: return None`
+    if fr["result"] is None:
+        return []
+    if kind(base) == "w" and base.bound is None and VAR(base.variance) != 0:
+        return []                       # ill-formed projection: the code fails on `None`
+    tt = export.TypeTable()
+    rq = {"op": "find.cand", "pvar": VAR(fr["t_param"].variance), "base": tt.add(base),
+          "get_subtypes": fr["get_subtypes"], "ignore_variance": fr["ignore_variance"],
+          "answers": [[tt.add(t) for t in c["result"]] for c in fr["calls"]],
+          "call_types": [tt.add(c["etype"]) for c in fr["calls"]],
+          "call_dirs": [c["get_subtypes"] for c in fr["calls"]],
+          "expect": [tt.add(t) for t in fr["result"]]}
+    rq["tt"] = tt.entries
+    return [(rq, True, {"what": "exact-cand", "frame": fr})]
+
+
+def requests_of_irrparam(fr):
+    if "exception" in fr or fr["type_args"] is None:
+        return []                       # free instantiation (`instantiate_type_constructor`): outside the model
+    con = fr["con"]
+    if len(fr["choices"]) != len(con.type_parameters):
+        return []
+    tt = export.TypeTable()
+    rq = {"op": "find.irrparam", "con": tt.add(con), "type_args": [tt.add(t) for t in fr["type_args"]],
+          "choices": [tt.add(c) if c is not None else None for _, c in fr["choices"]]}
+    if fr["result"] is not None:
+        rq["expect"] = tt.add(fr["result"])
+    rq["tt"] = tt.entries
+    return [(rq, True, {"what": "exact-irrparam", "frame": fr})]
 
 
 # ---- well-bounded instantiations ---------------------------------------------------------------------
@@ -311,6 +429,34 @@ def _nominally_below(con, name):
         return False
 
 
+def _has_kind(t, k):
+    """does the type mention (at any depth of its arguments / projection bounds) a type of kind `k`?"""
+    if kind(t) == k:
+        return True
+    if kind(t) == "p":
+        return any(_has_kind(a, k) for a in t.type_args)
+    if kind(t) == "w" and t.bound is not None:
+        return _has_kind(t.bound, k)
+    return False
+
+
+def hierarchy_ok(t):
+    """the class hierarchy above `t` is one a front end accepts: no class inherits two different instantiations
+    of the same generic class (`class Qux : Cell<Integer>, Cell<Array<Long>>` is rejected by every target
+    language; `type_args_map` of find_irrelevant_type is keyed by the class name)"""
+    try:
+        seen = {}
+        for u in t.get_supertypes():
+            if kind(u) == "p":
+                k = str(u.name)
+                if k in seen and not (seen[k] == u):
+                    return False
+                seen.setdefault(k, u)
+    except Exception:
+        return True
+    return True
+
+
 def irrelevant_target(etype, anyt):
     if kind(etype) == "v" and etype.bound is not None and not (etype.bound == anyt):
         return etype.bound
@@ -326,12 +472,14 @@ def irrelevant_shape(etype, result, ans, anyt):
         return "bare-constructor-returned"
     direction = "subtype" if ans.get("sub") else "supertype"
     kt, kr = kind(tgt), kind(result)
+    if result == tgt or result == etype:
+        return "query-itself-returned"
     if direction == "supertype" and result == anyt:
         return "supertype:top-type-returned"
     if direction == "supertype" and kt == "b" and getattr(tgt, "primitive", False) and kr == "b":
         return "supertype:supertype-of-the-box-of-a-primitive"
     if kr == "p" and kt == "p" and result.t_constructor == tgt.t_constructor:
-        if any(kind(a) == "w" for a in tgt.type_args):
+        if _has_kind(tgt, "w"):
             return "%s:same-constructor/projected-query" % direction
         return "%s:same-constructor" % direction
     if kr == "p" and direction == "subtype" and _nominally_below(result.t_constructor, _con_name(tgt)):
@@ -377,12 +525,71 @@ def subtype_shape(fr, r):
                 return not (refsub.contained(b, a, p, 0) if fr["get_subtypes"] else refsub.contained(a, b, p, 0))
             except Exception:
                 return True
-        allmoves = [("%s-to-%s" % (argkind(a), argkind(b)), offending(p, a, b))
+        def qualifier(a, b):
+            """how the new argument relates to the old one (the bounds, for projections)"""
+            xa = a.bound if kind(a) == "w" and a.bound is not None else a
+            xb = b.bound if kind(b) == "w" and b.bound is not None else b
+            if kind(a) == "w" and has(xa, "w"):
+                return "[projected-bound]"
+            try:
+                if xa == xb:
+                    return "[same]"
+                if refsub.sub(xb, xa):
+                    return "[new-below-old]"
+                if refsub.sub(xa, xb):
+                    return "[new-above-old]"
+            except Exception:
+                pass
+            return "[unrelated]"
+        def nested_super_search_wrong(p):
+            """root cause of an offending position: the candidates of this position come from a nested SUPERTYPE
+            search on a type that carries a use-site projection, and that search returned a non-supertype (the
+            recorded defect of the supertype direction: bare types instead of projections of them)"""
+            for ch in fr.get("children", []):
+                if ch["kind"] != "cand" or ch["t_param"] is not p:
+                    continue
+                for c in ch["calls"]:
+                    if c["get_subtypes"] or "result" not in c or not has(c["etype"], "w"):
+                        continue
+                    for x in c["result"]:
+                        try:
+                            if not (x == c["etype"]) and not refsub.sub(c["etype"], x):
+                                return True
+                        except Exception:
+                            pass
+            return False
+        if fr["get_subtypes"]:
+            off = [p for p, a, b in zip(e.t_constructor.type_parameters, e.type_args, r.type_args)
+                   if not (a == b) and offending(p, a, b)]
+            if off and all(nested_super_search_wrong(p) for p in off):
+                return "sub/related/samecon/nested-supertype-search-of-projected-type"
+        allmoves = [("%s-to-%s" % (argkind(a), argkind(b)) + (qualifier(a, b) if offending(p, a, b) else ""),
+                     offending(p, a, b))
                     for p, a, b in zip(e.t_constructor.type_parameters, e.type_args, r.type_args) if not (a == b)]
         moves = sorted({m for m, bad in allmoves if bad}) or sorted({m for m, _ in allmoves})
         ps0 = list(e.t_constructor.type_parameters)
         if not any(p.bound is not None and p.bound.has_type_variables() for p in ps0):
             return "%s/related/samecon/%s" % ("sub" if fr["get_subtypes"] else "super", "+".join(moves) or "none")
+        # the recorded finding `bound-mentions-parameter` is about the parameters that take part in a dependency
+        # (the bound of one mentions another): an offending position at an INDEPENDENT parameter of such a class
+        # is a different violation and keeps the ordinary signature
+        def mentions(t, q):
+            if t is None:
+                return False
+            if kind(t) == "v":
+                return t == q or mentions(t.bound, q)
+            if kind(t) == "p":
+                return any(mentions(a, q) for a in t.type_args)
+            if kind(t) == "w":
+                return mentions(t.bound, q)
+            return False
+        involved = [p for p in ps0 if (p.bound is not None and p.bound.has_type_variables())
+                    or any(q is not p and mentions(q.bound, p) for q in ps0)]
+        indep = [(p, a, b) for p, a, b in zip(ps0, e.type_args, r.type_args)
+                 if not (a == b) and offending(p, a, b) and not any(p is q for q in involved)]
+        if indep:
+            moves2 = sorted({"%s-to-%s" % (argkind(a), argkind(b)) + qualifier(a, b) for p, a, b in indep})
+            return "%s/related/samecon/%s" % ("sub" if fr["get_subtypes"] else "super", "+".join(moves2))
     if kind(e) == "p":
         ps = list(e.t_constructor.type_parameters)
         if any(p.bound is not None and p.bound.has_type_variables() for p in ps):
@@ -398,6 +605,143 @@ def subtype_shape(fr, r):
                            ("/" + "+".join(feats)) if feats else "")
 
 
+# ---- input distribution (evidence: which shapes the streams actually exercise) ---------------------------
+DECL = {0: "inv", 1: "out", 2: "in"}
+
+
+def argkind(a):
+    if kind(a) != "w":
+        return "bare"
+    return "star" if a.bound is None else {1: "out", 2: "in"}.get(VAR(a.variance), "inv-proj")
+
+
+def nesting(t):
+    if kind(t) == "p":
+        return 1 + max([nesting(a) for a in t.type_args] + [0])
+    if kind(t) == "w" and t.bound is not None:
+        return nesting(t.bound)
+    return 0
+
+
+def _neighbours(x, types, anyt=None):
+    """does the type list hold a proper nominal subtype / a proper nominal supertype (other than a root) of `x`?
+    (cheap: stored supertype closures only, `==` of the IR)"""
+    if x is None or kind(x) not in ("s", "b", "p"):
+        return ""
+    sub = sup = False
+    try:
+        ups = [u for u in x.get_supertypes() if not (u == x)]
+        for t in types[:60]:
+            t = _ty(t)
+            if kind(t) not in ("s", "b", "p") or t == x:
+                continue
+            if not sub and any(u == x for u in t.get_supertypes()):
+                sub = True
+            if not sup and list(getattr(t, "supertypes", [])) and any(u == t for u in ups):
+                sup = True
+            if sub and sup:
+                break
+    except Exception:
+        return "?"
+    return ("+sub" if sub else "") + ("+super" if sup else "")
+
+
+def distribution(run, fr):
+    k = fr["kind"]
+    try:
+        if k == "find" and fr["depth"] == 0:
+            e = fr["etype"]
+            d = "sub" if fr["get_subtypes"] else "super"
+            run.tally("dist_find_query", "%s:%s%d" % (d, kind(e), nesting(e)))
+            if kind(e) == "p":
+                for p, a in zip(e.t_constructor.type_parameters, e.type_args):
+                    x = a.bound if kind(a) == "w" else a
+                    run.tally("dist_find_position", "%s:decl-%s/use-%s%s" % (
+                        d, DECL.get(VAR(p.variance), "?"), argkind(a), _neighbours(x, fr["types"])))
+        elif k == "irrelevant" and fr["depth"] == 0:
+            e = fr["etype"]
+            run.tally("dist_irrelevant_query", "%s%d" % (kind(e), nesting(e)))
+            if kind(e) == "p":
+                tys = [_ty(t) for t in fr["types"]]
+                for p, a in zip(e.t_constructor.type_parameters, e.type_args):
+                    x = a.bound if kind(a) == "w" and a.bound is not None else a
+                    if kind(x) == "p":
+                        inl = any(kind(t) == "c" and t == x.t_constructor for t in tys)
+                        run.tally("dist_irrelevant_nested", "instantiation-under-decl-%s/use-%s%s" % (
+                            DECL.get(VAR(p.variance), "?"), argkind(a), "/constructor-in-types" if inl else ""))
+        elif k == "cand":
+            b = fr["base"]
+            x = b.bound if kind(b) == "w" else b
+            run.tally("dist_cand", "%s:decl-%s/use-%s%s%s" % (
+                "sub" if fr["get_subtypes"] else "super", DECL.get(VAR(fr["t_param"].variance), "?"), argkind(b),
+                "/ignore-variance" if fr["ignore_variance"] else "", _neighbours(x, fr["types"])))
+        elif k == "irrparam" and fr["type_args"] is not None:
+            for p, a in zip(fr["con"].type_parameters, fr["type_args"]):
+                run.tally("dist_irrparam_position", "decl-%s/%s%d" % (DECL.get(VAR(p.variance), "?"), kind(a), nesting(a)))
+    except Exception as e:           # a counter must never break a run
+        run.tally("dist_errors", type(e).__name__)
+
+
+# ---- judges below the top level (failing-input search of the cand / irrparam correspondences) --------------
+def judge_cand(run, rq, fr, label, origin):
+    """`candidateArgs_sound` on the recorded invocation: when the nested searches kept their promise (every
+    element is the queried type or, by the reference decider, on the requested side of it), every candidate of
+    the subtype direction must be contained in the query's argument"""
+    if not fr["get_subtypes"] or fr["ignore_variance"] or not fr.get("result"):
+        return
+    p = fr["t_param"]
+    base = fr["replaced"][0] if "replaced" in fr else fr["base"]
+    pv = VAR(p.variance)
+    if kind(base) == "w":
+        if base.bound is None or VAR(base.variance) not in (1, 2) or pv not in (0, VAR(base.variance)):
+            return                      # star / ill-formed position: nothing to check
+        if kind(base.bound) == "w":
+            return
+    try:
+        for c in fr["calls"]:
+            e = c["etype"]
+            for r in c["result"]:
+                if r == e:
+                    continue
+                if kind(r) == "w" or kind(e) == "w":
+                    run.tally("judge_cand", "hypothesis-fails")
+                    return
+                if not (refsub.sub(r, e) if c["get_subtypes"] else refsub.sub(e, r)):
+                    run.tally("judge_cand", "hypothesis-fails")   # the nested answer is wrong: judged on its own
+                    return
+        bad = [b for b in fr["result"] if not refsub.contained(b, base, p, 0)]
+    except Exception:
+        run.tally("judge_cand", "decider-error")
+        return
+    run.tally("judge_cand", "rejected" if bad else "ok")
+    if bad:
+        _viol(run, {"kind": "failing-input", "what": "_find_candidate_type_args(%s, %s, get_subtypes=True) offers %s, which "
+                    "is not contained in the argument (the nested searches answered correctly: %s)"
+                    % (export.short(p), export.short(base), export.short(bad[0]),
+                       "; ".join("%s(%s) = [%s]" % ("subtypes" if c["get_subtypes"] else "supertypes",
+                                                    export.short(c["etype"]),
+                                                    ", ".join(export.short(r) for r in c["result"][:8]))
+                                 for c in fr["calls"])),
+                    "request": rq, "implementation": True,
+                    "origin": dict(origin or {}, **fr.get("where", {})), "stream": label},
+              SIG_SUB + "candidate-not-contained/decl-%s/use-%s" % (DECL.get(pv, "?"), argkind(base)))
+
+
+def judge_irrparam(run, rq, fr, label, origin):
+    """`irrelevantParam_neq` on the recorded invocation: the answer must not be the instantiation with the
+    relevant arguments"""
+    r, ta = fr.get("result"), fr["type_args"]
+    if r is None or ta is None or kind(r) != "p":
+        return
+    if len(r.type_args) == len(ta) and all(a == b for a, b in zip(r.type_args, ta)):
+        _viol(run, {"kind": "failing-input", "what": "get_irrelevant_parameterized_type(%s) with relevant arguments <%s> "
+                    "returned %s: the relevant instantiation itself" % (
+                        export.short(fr["con"]), ", ".join(export.short(a) for a in ta), export.short(r)),
+                    "request": rq, "implementation": True,
+                    "origin": dict(origin or {}, **fr.get("where", {})), "stream": label},
+              SIG_IRR + "relevant-instantiation-returned")
+
+
 # ---- evaluation of frames ------------------------------------------------------------------------------
 def eval_frames(run, frames, label, boxes_by_frame=None, origin=None):
     """turn frames into requests, run the model, compare / judge.  Returns statistics."""
@@ -406,8 +750,16 @@ def eval_frames(run, frames, label, boxes_by_frame=None, origin=None):
         if fr["kind"] == "find":
             boxes = fr.get("boxes") or []
             items = requests_of_find(fr, boxes)
-        else:
+        elif fr["kind"] == "irrelevant":
             items = requests_of_irrelevant(fr)
+        elif fr["kind"] == "cand":
+            items = requests_of_cand(fr)
+            run.tally("cand_frames", "modelled" if items else "outside-model")
+        else:
+            items = requests_of_irrparam(fr)
+            run.tally("irrparam_frames", "modelled" if items else
+                      ("free-instantiation" if fr["type_args"] is None else "outside-model"))
+        distribution(run, fr)
         for rq, ia, m in items:
             rqs.append(rq)
             impl.append(ia)
@@ -427,9 +779,14 @@ def eval_frames(run, frames, label, boxes_by_frame=None, origin=None):
         op = rq["op"]
         run.tally("ops", op)
         run.cov["traces_validated_against_impl"] += 1
-        if op in ("find.types", "find.avail"):
-            nt = bool(rq.get("expect"))
+        if op in ("find.types", "find.avail", "find.cand", "find.irrparam"):
+            nt = bool(rq.get("expect")) or op == "find.irrparam"
             run.count({"request": rq, "answer": ia}, nontrivial=nt)
+            if op == "find.cand":
+                judge_cand(run, rq, fr, label, origin)
+            elif op == "find.irrparam":
+                run.tally("irrparam_answers", "None" if fr["result"] is None else "instantiation")
+                judge_irrparam(run, rq, fr, label, origin)
             if ans != ia:
                 st["exact_diffs"] += 1
                 if first_diff is None:
@@ -472,12 +829,16 @@ def eval_frames(run, frames, label, boxes_by_frame=None, origin=None):
                       ("early:" if ans["early"] else "") + kind(fr["result"]))
             if not ans["ok"] and not query_ok(fr["etype"]):
                 run.tally("refine_irrelevant", "ill-bounded-query-skipped")
+            elif not ans["ok"] and not hierarchy_ok(irrelevant_target(fr["etype"], fr["factory"].get_any_type())):
+                run.tally("refine_irrelevant", "two-instantiations-of-one-superclass-skipped")
             elif not ans["ok"]:
                 st["rejected"] += 1
                 report_irrelevant_rejection(run, rq, ans, fr, label, origin)
     for fr in frames:
         if fr["kind"] == "irrelevant" and "exception" in fr:
             run.tally("irrelevant_exceptions", fr["exception"])
+        elif fr["kind"] in ("cand", "irrparam") and "exception" in fr:
+            run.tally(fr["kind"] + "_exceptions", fr["exception"])
     if avail_diffs:
         search_related_candidates(run, avail_diffs, label, origin)
     if first_diff is not None:
@@ -487,7 +848,8 @@ def eval_frames(run, frames, label, boxes_by_frame=None, origin=None):
         # a failing input for a broken correspondence: does the implementation's own answer violate the
         # property?  (the refinement requests above have judged the same frames: rejected ones were reported)
         run.violation({"kind": "broken-correspondence", "correspondence": "%s vs Model/Find (%s)" % (rq["op"], label),
-                       "etype": export.short(fr["etype"]), "request": rq, "implementation": ia, "model": ans,
+                       "etype": export.short(fr["etype"] if "etype" in fr else fr.get("base", fr.get("con"))),
+                       "request": rq, "implementation": ia, "model": ans,
                        "origin": origin},
                       signature=rq["op"] + ":model-differs", no_input=len(run.violations) == n0)
     return st
